@@ -8,23 +8,13 @@ Local Open Scope Z_scope.
 Lemma cons_head_concat c l : l <> [] -> concat (cons_head c l) = c :: concat l.
 Proof. destruct l as [|h t]; [congruence|reflexivity]. Qed.
 Lemma wrap_at_nonempty s w : wrap_at s w <> [].
-Proof.
-  revert w; induction s as [|c r IH]; intros w; cbn [wrap_at]; [discriminate|].
-  destruct (byte_eqb "," c).
-  - destruct w as [|[|] w']; try discriminate; specialize (IH w') + specialize (IH []);
-      destruct (wrap_at r _); try congruence; discriminate.
-  - specialize (IH w). destruct (wrap_at r w); [congruence|discriminate].
-Qed.
+Proof. destruct w as [|n w]; cbn [wrap_at]; [discriminate|]. destruct ((n =? 0)%nat || (length s <=? n)%nat); discriminate. Qed.
 (* P1 wrapped_loc: joining the wrapped pieces (what the reader does with continuation lines) gives the text back *)
 Lemma wrap_concat s w : concat (wrap_at s w) = s.
 Proof.
-  revert w; induction s as [|c r IH]; intros w; cbn [wrap_at]; [reflexivity|].
-  destruct (byte_eqb "," c).
-  - destruct w as [|[|] w'].
-    + rewrite cons_head_concat by apply wrap_at_nonempty. now rewrite IH.
-    + cbn [concat app]. now rewrite IH.
-    + rewrite cons_head_concat by apply wrap_at_nonempty. now rewrite IH.
-  - rewrite cons_head_concat by apply wrap_at_nonempty. now rewrite IH.
+  revert s; induction w as [|n w IH]; intros s; cbn [wrap_at]; [cbn; apply app_nil_r|].
+  destruct ((n =? 0)%nat || (length s <=? n)%nat); [cbn; apply app_nil_r|].
+  cbn [concat]. rewrite IH. apply firstn_skipn.
 Qed.
 
 (* ------------------------------------------------------------ induction principle for nested lexp *)
@@ -785,7 +775,7 @@ Qed.
 Lemma box_size : length box_files = 324%nat /\ length box_excl = 7%nat.
 Proof. split; reflexivity. Qed.
 
-Definition ex_file : list arec := box_file [true] (LCompl (LJoin [LRange false (d "1") false (d "5"); LRange true (d "7") true (d "10")])).
+Definition ex_file : list arec := box_file [20%nat; 3%nat] (LCompl (LJoin [LRange false (d "1") false (d "5"); LRange true (d "7") true (d "10")])).
 Lemma ex_read_render :
   wf_C10 [] ex_file = true
   /\ iter_genbank [] (render_gb ex_file) = ROk (view [] ex_file)
@@ -802,5 +792,6 @@ Lemma ex_exclude_fts :
   /\ map rseq (view [k_fts] ex_file) = map rseq (view [] ex_file)
   /\ map rfts (view [k_fts] ex_file) = [None; None]
   /\ read_fts_genbank [k_fts] (render_gb ex_file) = ROk []
-  /\ iter_genbank [k_fts; k_seq] (render_gb ex_file) = ROk [mkrec (bs "AB000001"%bs) [] None; mkrec [] [] None].
+  /\ match iter_genbank [k_fts; k_seq] (render_gb ex_file) with ROk l => map (fun r => (rid r, rseq r, rfts r)) l | RErr _ => [] end
+     = [(bs "AB000001"%bs, [], None); ([], [], None)].
 Proof. vm_compute. repeat split; reflexivity. Qed.
